@@ -258,8 +258,8 @@ def configs(tier):
             for image in (False, True):
                 if image and cls == "PiecewiseLinear":
                     continue
-                if image and cls.startswith("Piecewise") and tier == "quick":
-                    continue  # two pixels x (bins + tails) paths each: thorough tier only
+                if image and cls.startswith("Piecewise") and (tier == "quick" or Fn > 2):
+                    continue  # two pixels x (bins + tails) paths each: thorough tier only, two channels (three channels ran > 1 h on one core)
                 for direction in ("forward", "inverse"):
                     cfgs.append({"cls": cls, "F": Fn, "image": image, "direction": direction, "timeout": t})
     for direction in ("forward", "inverse"):
